@@ -140,6 +140,8 @@ def gen_case(rng, nmax):
     if mk in ('path', 'perm') and rng.random() < 0.7:
         vk = 'unit'
     A, k = gen_matrix(rng, n, mk)
+    if rng.random() < 0.04:
+        A = np.identity(n); mk = 'identity-by-reference'
     v = gen_vector(rng, n, vk, k)
     return {'A': A, 'v': v, 'm': m, 'mk': mk, 'vk': vk, 'plan': gen_plan(rng, m)}
 
@@ -164,6 +166,9 @@ def call_impl(func, case, extra=None):
     extra = extra or {}
 
     def Afunc(x):
+        # a matrix-free map may return its argument where it acts as the identity (`lambda x: x`); the model's map is pure
+        if A.shape[0] == A.shape[1] and np.array_equal(A, np.identity(A.shape[0])):
+            return x
         return A @ x
 
     def f():
@@ -380,6 +385,7 @@ def _tridiag(alpha, beta):
 
 
 def oracle(func, A, v, m, d):
+    _alias_ok = True
     """
     `d` = dimension of the Krylov space of (A, v).  Returns None or a description of the violated clause.
     Relations are only required for the leading min(returned size, d) columns; for m <= d no shortening is allowed.
@@ -391,6 +397,10 @@ def oracle(func, A, v, m, d):
     tol = 1e-7 * scale
 
     def Afunc(x):
+        # the map may return its argument (or a view of it) when it acts as the identity on x: a matrix-free `Afunc` such as
+        # `lambda x: x` is a legitimate Hermitian map (finding F8: the iterations used to update Afunc's return value in place)
+        if _alias_ok and np.array_equal(A, np.identity(len(x))):
+            return x
         return A @ x
     try:
         with warnings.catch_warnings():
@@ -488,6 +498,12 @@ def oracle_cases(rng, hints):
             for mm in sorted({m, 1, d, d + 1, len(v), len(v) + 2}):
                 if mm >= 1:
                     yield func, M, v, mm, d
+    # identity map implemented as `lambda x: x` (returns its argument): Krylov dimension 1
+    for n in (1, 3, 5):
+        v = rng.standard_normal(n) + (1j * rng.standard_normal(n) if n > 1 else 0)
+        for func in ('lanczos', 'arnoldi'):
+            for mm in (1, 2, n + 1):
+                yield func, np.identity(n), v, mm, 1
     while True:
         func = 'lanczos' if rng.random() < 0.5 else 'arnoldi'
         r = rng.random()
